@@ -49,6 +49,7 @@ type Rec struct {
 	s        Shard
 	distinct map[uint64]struct{}
 	labels   map[string]int
+	nViol    int // every Violate call, kept or suppressed
 	start    time.Time
 	dir      string
 	maxSamples int
@@ -154,7 +155,9 @@ func (r *Rec) LabelCounts() map[string]int {
 	return out
 }
 
-func (r *Rec) NViolations() int { r.mu.Lock(); defer r.mu.Unlock(); return len(r.s.Violations) }
+// NViolations counts every reported violation, including those whose witness was not kept because the label already
+// had three (callers compare the number before and after a step to learn whether the step found a difference).
+func (r *Rec) NViolations() int { r.mu.Lock(); defer r.mu.Unlock(); return r.nViol }
 
 // Violate records a violation under a narrow label. At most 3 witnesses per
 // label are kept; each gets a replay file. The shard file is flushed at once.
@@ -163,6 +166,7 @@ func (r *Rec) Violate(label, what string, detail interface{}) {
 		return
 	}
 	r.mu.Lock()
+	r.nViol++
 	r.labels[label]++
 	n := r.labels[label]
 	if n > 3 {
